@@ -198,7 +198,7 @@ Print Assumptions C09_fresh_is_first_state.
 Theorem C09_shutdown_frame : forall c now m w r, shut (w_mod w m) = Some r ->
   let w' := fst (shutdown_part c now m w) in
   (forall i, i <> m -> w_mod w' i = w_mod w i) /\
-  w_cur w' = w_cur w /\ w_buf w' = w_buf w /\ w_err w' = w_err w /\
+  w_cur w' = w_cur w /\ w_buf w' = w_buf w /\ w_err w' = w_err w ++ (if c_rsend c then [(0, m)] else []) /\
   match r with
   | None => w_fes w' = w_fes w
   | Some t => exists l1 l2, fes_order (w_fes w) = l1 ++ l2 /\ fes_order (w_fes w') = l1 ++ (t, EvRestart m) :: l2
@@ -206,6 +206,19 @@ Theorem C09_shutdown_frame : forall c now m w r, shut (w_mod w m) = Some r ->
   active (w_mod w' m) = false /\ ready (w_mod w' m) = [] /\ timers (w_mod w' m) = [] /\ shut (w_mod w' m) = None.
 Proof. exact shutdown_frame. Qed.
 Print Assumptions C09_shutdown_frame.
+
+(* reset_panic_frame.  Module::reset is user code too; it runs while the shutdown request is consumed, under
+   Harness::pass and with the event buffer's lock held by buf_process -- so every send / schedule in it panics ("Could not
+   lock mutex on single thread"; [c_rsend]: the module's reset makes such a call).  That panic changes nothing of the
+   shutdown / restart bookkeeping: compared with the same module whose reset does not panic ([with_rsend c false]) the
+   resulting world differs in the error list only -- one PanicError more, whatever the stereotype says --, the module is
+   down in the same state, the restart event is queued the same, and the record has the one reset-panic record more. *)
+Theorem C09_reset_panic_frame : forall c now m w r, shut (w_mod w m) = Some r ->
+  let wa := fst (shutdown_part (with_rsend c false) now m w) in
+  fst (shutdown_part (with_rsend c true) now m w) = set_err wa (w_err wa ++ [(0, m)]) /\
+  snd (shutdown_part (with_rsend c true) now m w) = snd (shutdown_part (with_rsend c false) now m w) ++ [IResetPanic m].
+Proof. exact reset_panic_frame. Qed.
+Print Assumptions C09_reset_panic_frame.
 
 (* delivery_independent_of_m ("modules that are not shut down are unaffected"):
    (a) whether a message leaving a connection reaches its receiver depends on the active flags
@@ -244,9 +257,9 @@ Print Assumptions C09_run_is_generated.
    logs 8) is told at t = 2 to shut down and restart in 5 ns; a message for it arrives at t = 4
    (while it is down) and another at t = 9 (after the restart). *)
 Definition ex_m0 : modcfg := {| c_catch := false; c_stages := 2; c_bud := 5; c_start := [[]];
-  c_msg := [[ARestartIn 5]; [ALog 1]]; c_tasks := [[ASleep 3; ALog 7; ASleep 10; ALog 8]]; c_end := []; c_join := 0 |}.
+  c_msg := [[ARestartIn 5]; [ALog 1]]; c_tasks := [[ASleep 3; ALog 7; ASleep 10; ALog 8]]; c_end := []; c_join := 0; c_rsend := false |}.
 Definition ex_m1 : modcfg := {| c_catch := false; c_stages := 1; c_bud := 5; c_start := [[]];
-  c_msg := [[ALog 2]]; c_tasks := []; c_end := []; c_join := 0 |}.
+  c_msg := [[ALog 2]]; c_tasks := []; c_end := []; c_join := 0; c_rsend := false |}.
 Definition ex : script :=
   {| s_mods := [ex_m0; ex_m1];
      s_inj := [(2, InjDeliver 0 0); (4, InjDeliver 0 1); (9, InjDeliver 0 1); (4, InjDeliver 1 0)] |}.
@@ -280,11 +293,11 @@ Proof. vm_compute. repeat split; reflexivity. Qed.
    kept pieces.  The restart event in the one world and the start-up step at t = 7 in the other, then a message at 9
    and the wake-up at 10 -- with different event sets left behind --, and at_sim_end write the same records. *)
 Definition fx_m0 : modcfg := {| c_catch := false; c_stages := 1; c_bud := 5; c_start := [[ALog 9]];
-  c_msg := [[ARestartIn 5]; [ALog 1; ASend false 2 0]]; c_tasks := [[ASleep 3; ALog 7]]; c_end := [ALog 30]; c_join := 0 |}.
+  c_msg := [[ARestartIn 5]; [ALog 1; ASend false 2 0]]; c_tasks := [[ASleep 3; ALog 7]]; c_end := [ALog 30]; c_join := 0; c_rsend := false |}.
 Definition fx_m1 : modcfg := {| c_catch := false; c_stages := 1; c_bud := 5; c_start := [[]];
-  c_msg := [[ALog 2]]; c_tasks := []; c_end := []; c_join := 0 |}.
+  c_msg := [[ALog 2]]; c_tasks := []; c_end := []; c_join := 0; c_rsend := false |}.
 Definition fy_m1 : modcfg := {| c_catch := true; c_stages := 2; c_bud := 1; c_start := [[ALog 4]];
-  c_msg := [[AShutdown]]; c_tasks := [[ASleep 1]]; c_end := [ALog 5]; c_join := 1 |}.
+  c_msg := [[AShutdown]]; c_tasks := [[ASleep 1]]; c_end := [ALog 5]; c_join := 1; c_rsend := false |}.
 Definition fx : script := {| s_mods := [fx_m0; fx_m1]; s_inj := [(2, InjDeliver 0 0); (9, InjDeliver 0 1)] |}.
 Definition fy : script := {| s_mods := [fx_m0; fy_m1]; s_inj := [(1, InjDeliver 1 0)] |}.
 Definition fv : kept := {| k_inc := 1; k_bud := 4; k_nw := None; k_hnd := [(0, 0)]; k_catch := false |}.
